@@ -161,16 +161,21 @@ def run_assignment(case, mask):
         return out
 
     first_space = None
-    varied_now = None
+    varied_now = set()
+    seeded = False
     recached = False
     for op in case["ops"]:
-        if varied_now is None and op["op"] == "evalall":
-            varied_now = set()
+        if not seeded:
+            # varied cells are named by the path they are created under
             for v in varied:
                 try:
-                    varied_now.add((id(w.rm.get(v[0])), v[1]))
+                    sp_ = w.rm.get(v[0])
+                    if v[1] in sp_.cells:
+                        varied_now.add((id(sp_), v[1]))
                 except KeyError:
                     pass
+            if op["op"] == "evalall":
+                seeded = True
         k = op["op"]
         if k == "nop":
             continue
@@ -240,6 +245,15 @@ def run_assignment(case, mask):
                     continue
             except Exception:      # noqa
                 continue
+        if op2["op"] in ("set_formula", "set_cached") and varied_now is not None:
+            # an override keeps the cached flag of the cells it overrides: it is varied too
+            try:
+                sp_ = w.rm.get(op2["space"])
+                d_ = R.members(sp_)["cells"].get(op2["name"])
+                if d_ is not None and (id(d_[0]), op2["name"]) in varied_now:
+                    varied_now.add((id(sp_), op2["name"]))
+            except Exception:      # noqa
+                pass
         if op2["op"] == "rename_cells":
             try:
                 sid = id(w.rm.get(op2["space"]))
